@@ -608,6 +608,39 @@ def global_mutable_leak(model: Model, fn: FunctionInfo) -> list[Lint]:
     return out
 
 
+def last_iteration_flag(model: Model, fn: FunctionInfo) -> list[Lint]:
+    """``flag = False`` / ``for ..: flag = <test>`` / ``if flag`` after the loop: the flag is overwritten in every
+    iteration, so after the loop it tells about the LAST element only - "did any ..." / "did all ..." was meant
+    (``flag = flag or <test>``)."""
+    out: list[Lint] = []
+    for blk in ast.walk(fn.node):
+        body = getattr(blk, "body", None)
+        if not isinstance(body, list):
+            continue
+        for seq in (body, getattr(blk, "orelse", None) or [], getattr(blk, "finalbody", None) or []):
+            for i, st in enumerate(seq):
+                if not isinstance(st, (ast.For, ast.AsyncFor)):
+                    continue
+                inits = {}
+                for prev in ast.walk(fn.node):
+                    if isinstance(prev, ast.Assign) and prev.lineno < st.lineno and len(prev.targets) == 1 and isinstance(prev.targets[0], ast.Name) and isinstance(prev.value, ast.Constant) and isinstance(prev.value.value, bool):
+                        inits[prev.targets[0].id] = prev.value.value
+                for inner in st.body:  # unconditional statements of the loop body only
+                    if isinstance(inner, ast.Assign) and len(inner.targets) == 1 and isinstance(inner.targets[0], ast.Name) and inner.targets[0].id in inits:
+                        name = inner.targets[0].id
+                        v = inner.value
+                        if isinstance(v, ast.Constant) or any(isinstance(n, ast.Name) and n.id == name for n in ast.walk(v)):
+                            continue
+                        if not isinstance(v, (ast.Compare, ast.BoolOp, ast.UnaryOp, ast.Call)):
+                            continue
+                        if any(isinstance(n, ast.Break) for n in ast.walk(st)):
+                            continue
+                        used_after = any(isinstance(n, ast.Name) and n.id == name and isinstance(n.ctx, ast.Load) and n.lineno > (st.end_lineno or st.lineno) for n in ast.walk(fn.node))
+                        if used_after:
+                            out.append(Lint("last-iteration-flag", fn, inner.lineno, name, f"`{name}` starts as {inits[name]} and is overwritten with `{ast.unparse(v)[:50]}` in every iteration of the loop at line {st.lineno}, then read after the loop: it reflects the last element only, not whether the test held for any (or all) of them"))
+    return out
+
+
 def scan(model: Model, files: set[str] | None = None) -> tuple[list[Lint], int]:
     """All lints for the functions defined in ``files`` (relative paths under src/curies; None = everything)."""
     out: list[Lint] = []
@@ -623,4 +656,5 @@ def scan(model: Model, files: set[str] | None = None) -> tuple[list[Lint], int]:
         out += mutate_while_iterating(model, fn)
         out += iterable_param_reuse(model, fn)
         out += global_mutable_leak(model, fn)
+        out += last_iteration_flag(model, fn)
     return out, n
